@@ -23,7 +23,7 @@ LABEL_FLOORS = {'different_wavelets': 0.6, 'odd': 0.25}
 
 def plan(tier):
     if tier == 'quick':
-        return [{'n': 200} for _ in range(8)]
+        return [{'n': 200} for _ in range(16)]
     return [{'n': 8000} for _ in range(16)]
 
 
